@@ -63,6 +63,7 @@ class FaultFS:
         self._keep = []       # keep file objects alive so ids are not reused
         self._saved = {}
         self._yaml_saved = None
+        self.dumped = []      # documents handed to YAML.dump / dump_all for a tracked file
 
     # ---- bookkeeping -------------------------------------------------------
     def role_of_path(self, p):
@@ -225,6 +226,7 @@ class FaultFS:
         def y_dump(yobj, data, stream=None, **kw):
             if me.role_of_handle(stream) == "other" or getattr(me, "_in_dump", False):
                 return real_dump(yobj, data, stream, **kw)
+            me.dumped.append(data)
             return me._dump_like(lambda: guarded(real_dump, yobj, data, stream, **kw),
                                  lambda: y_text(yobj, [data]), stream)
 
@@ -274,7 +276,7 @@ def run_tool(mod, argv, roles=None, fault=None, stdin_text=None, observe_io=True
     old = (sys.argv, sys.stdout, sys.stderr, sys.stdin, P.stdin)
     out, err = io.StringIO(), io.StringIO()
     fake_in = FakeStdin(stdin_text)
-    status, crash = 0, None
+    status, crash, exc = 0, None, None
     try:
         sys.argv = list(argv)
         sys.stdout, sys.stderr, sys.stdin = out, err, fake_in
@@ -287,10 +289,11 @@ def run_tool(mod, argv, roles=None, fault=None, stdin_text=None, observe_io=True
             c = e.code
             status = 0 if c is None else (c if isinstance(c, int) else 1)
         except BaseException as e:  # noqa
-            status, crash = 1, type(e).__name__
+            status, crash, exc = 1, type(e).__name__, e
     finally:
         if observe_io:
             ffs.uninstall()
         sys.argv, sys.stdout, sys.stderr, sys.stdin, P.stdin = old
     return {"status": status, "crash": crash, "trace": ffs.trace, "nfaultable": ffs.nfaultable,
-            "stdout": out.getvalue(), "stderr": err.getvalue(), "fired": ffs.fired}
+            "stdout": out.getvalue(), "stderr": err.getvalue(), "fired": ffs.fired, "exc": exc,
+            "dumped": ffs.dumped}
